@@ -184,6 +184,13 @@ class _Mangler(NodeTransformer):
 
     visit_Nonlocal = visit_Global
 
+    def visit_alias(self, node):
+        # import __x, from m import __x, from m import y as __x
+        bound = node.asname or node.name
+        if self.mangle(bound) != bound:
+            node.asname = self.mangle(bound)
+        return node
+
     def visit_ClassDef(self, node):
         # A nested class mangles with its own name
         return node
@@ -1550,9 +1557,16 @@ def transform(fn, proceed, to_instrument=True, set_conformer=True):
             f"{fn} cannot be tooled: it is not defined by a def statement"
         )
     tree.decorator_list = []
-    owner = fn.__qualname__.split(".")[-2:-1]
-    if owner and owner[0] != "<locals>" and owner[0].lstrip("_"):
-        # fn was defined in a class body
+    # The innermost class fn is defined in (directly, or in one of its
+    # methods): in a.b.<locals>.c, the part a is followed by another name,
+    # so it is a class, while b is a function
+    parts = fn.__qualname__.split(".")
+    owner = [
+        part
+        for part, following in zip(parts, parts[1:])
+        if "<locals>" not in (part, following)
+    ][-1:]
+    if owner and owner[0].lstrip("_"):
         for stmt in tree.body:
             _Mangler(owner[0]).visit(stmt)
         for arg in ast.walk(tree.args):
